@@ -22,6 +22,8 @@ pub enum Op {
     SyncTimer,
     Bmca,
     CleanExchange { who: u8, two_step: bool },
+    /// Announce from another port of the own instance with a lower port number (same segment)
+    OwnAnnounce { seq: u16 },
 }
 
 fn responder(who: u8) -> PortId {
@@ -58,7 +60,7 @@ fn gen_scenario(t: &mut Tape) -> Scenario {
     let n = t.urange(2, 16);
     let mut ops = vec![];
     for _ in 0..n {
-        let op = match t.weighted(&[5, 5, 7, 6, 1, 1, 1, 1, 2]) {
+        let op = match t.weighted(&[5, 5, 7, 6, 1, 1, 1, 1, 2, 1]) {
             0 => Op::DelayTimer,
             1 => Op::ReturnTx { t1: gen_t(t, base) },
             2 => Op::Resp {
@@ -75,7 +77,8 @@ fn gen_scenario(t: &mut Tape) -> Scenario {
             5 => Op::AnnounceTimer,
             6 => Op::SyncTimer,
             7 => Op::Bmca,
-            _ => Op::CleanExchange { who: t.below(2) as u8, two_step: t.bool() },
+            8 => Op::CleanExchange { who: t.below(2) as u8, two_step: t.bool() },
+            _ => Op::OwnAnnounce { seq: t.below(8) as u16 },
         };
         ops.push(op);
     }
@@ -248,6 +251,11 @@ pub fn run_scenario(sc: &Scenario, out: &mut CaseOut) -> (usize, bool) {
             Op::SyncTimer => node.timer(0, TimerKind::Sync),
             Op::Bmca => node.bmca().into_iter().flatten().collect(),
             Op::CleanExchange { .. } => unreachable!(),
+            Op::OwnAnnounce { seq } => {
+                let src = PortId { clock: me.clock, port: 0 };
+                let m = announce_from(src, *seq, simple_announce(me.clock, 128, 248, 0), 0, 0);
+                node.recv_general(0, &m.encode())
+            }
         };
         let after = node.state(0);
         // measurements recorded during this op
